@@ -329,7 +329,35 @@ func c07Run(r *Run) {
 		h.Stmt = func(stm ast.Stmt, st State) State {
 			s := st.(*c07State)
 			as, ok := stm.(*ast.AssignStmt)
-			if !ok || len(as.Rhs) != 1 {
+			if !ok {
+				return s
+			}
+			// method = m : the obligation on m moves to method
+			if len(as.Lhs) == len(as.Rhs) {
+				for i := range as.Lhs {
+					rid, ok := ast.Unparen(as.Rhs[i]).(*ast.Ident)
+					if !ok {
+						continue
+					}
+					ro := info.Uses[rid]
+					p, pending := s.unchecked[ro]
+					if !pending {
+						continue
+					}
+					if lid, ok := as.Lhs[i].(*ast.Ident); ok {
+						lo := info.Defs[lid]
+						if lo == nil {
+							lo = info.Uses[lid]
+						}
+						if lo != nil && lo != ro {
+							delete(s.unchecked, ro)
+							s.unchecked[lo] = p
+							lookupPos[lo] = p
+						}
+					}
+				}
+			}
+			if len(as.Rhs) != 1 {
 				return s
 			}
 			c, ok := ast.Unparen(as.Rhs[0]).(*ast.CallExpr)
